@@ -20,11 +20,15 @@ VARIABLES disk, running, hist
 vars == <<disk, running, hist>>
 
 Modes ==
-  [ server        |-> [tooldiff |-> FALSE, toolmerge |-> FALSE, outfile |-> FALSE, closable |-> FALSE],
-    difftool      |-> [tooldiff |-> TRUE,  toolmerge |-> FALSE, outfile |-> FALSE, closable |-> TRUE],
-    mergetool_out |-> [tooldiff |-> FALSE, toolmerge |-> TRUE,  outfile |-> TRUE,  closable |-> TRUE],
-    mergetool     |-> [tooldiff |-> FALSE, toolmerge |-> TRUE,  outfile |-> FALSE, closable |-> TRUE],
-    mergeweb_out  |-> [tooldiff |-> FALSE, toolmerge |-> FALSE, outfile |-> TRUE,  closable |-> FALSE] ]
+  [ server        |-> [tooldiff |-> FALSE, toolmerge |-> FALSE, outfile |-> FALSE, closable |-> FALSE, badlocal |-> FALSE],
+    difftool      |-> [tooldiff |-> TRUE,  toolmerge |-> FALSE, outfile |-> FALSE, closable |-> TRUE,  badlocal |-> FALSE],
+    \* the diff tool started on two revisions of a repository: the notebooks are open streams, not file names
+    difftool_refs |-> [tooldiff |-> TRUE,  toolmerge |-> FALSE, outfile |-> FALSE, closable |-> TRUE,  badlocal |-> FALSE],
+    mergetool_out |-> [tooldiff |-> FALSE, toolmerge |-> TRUE,  outfile |-> TRUE,  closable |-> TRUE,  badlocal |-> FALSE],
+    mergetool     |-> [tooldiff |-> FALSE, toolmerge |-> TRUE,  outfile |-> FALSE, closable |-> TRUE,  badlocal |-> FALSE],
+    \* the merge tool started on a local file that is not a notebook (git left conflict markers in it)
+    mergetool_badfile |-> [tooldiff |-> FALSE, toolmerge |-> TRUE, outfile |-> FALSE, closable |-> TRUE, badlocal |-> TRUE],
+    mergeweb_out  |-> [tooldiff |-> FALSE, toolmerge |-> FALSE, outfile |-> TRUE,  closable |-> FALSE, badlocal |-> FALSE] ]
 M == Modes[Mode]
 
 Files == {"a.ipynb", "b.ipynb", "c.ipynb", "notnb.txt", "out.ipynb"}
@@ -46,7 +50,7 @@ ValidBody(r) == r \in {"diff_ab", "diff_bc", "merge_abc", "store_6", "store_7_ex
 Response(r) ==
   IF ~running THEN "none"
   ELSE CASE IsDiff(r)  -> IF M.tooldiff \/ ValidBody(r) THEN "ok" ELSE "error"
-         [] IsMerge(r) -> IF M.toolmerge \/ ValidBody(r) THEN "ok" ELSE "error"
+         [] IsMerge(r) -> IF M.badlocal THEN "error" ELSE IF M.toolmerge \/ ValidBody(r) THEN "ok" ELSE "error"
          [] IsStore(r) -> IF M.outfile /\ ValidBody(r) THEN "ok" ELSE "error"
          [] r = "close" -> IF M.closable THEN "ok" ELSE "error"
          [] OTHER -> "error"
@@ -54,7 +58,7 @@ Response(r) ==
 \* Alternative answers the property equally allows: in the tool modes the body of a diff / merge request is not
 \* needed, so a malformed one may be answered from the start-up arguments (what nbdime does) or be refused.
 AltResponses(r) ==
-  IF running /\ ~ValidBody(r) /\ ((IsDiff(r) /\ M.tooldiff) \/ (IsMerge(r) /\ M.toolmerge)) THEN {"error"} ELSE {}
+  IF running /\ ~ValidBody(r) /\ ((IsDiff(r) /\ M.tooldiff) \/ (IsMerge(r) /\ M.toolmerge /\ ~M.badlocal)) THEN {"error"} ELSE {}
 
 Init == disk = Disk0 /\ running = TRUE /\ hist = <<>>
 
